@@ -26,8 +26,7 @@ type Knobs struct {
 }
 
 // DrawKnobs draws the event-mix weights (configuration draws).
-func DrawKnobs(s *Sim) Knobs {
-	t := s.R.Tape
+func DrawKnobs(t *simcore.Tape, mode Mode) Knobs {
 	k := Knobs{
 		SignW:    []int{1, 4, 8}[t.CfgDraw(3)], // lazy vs eager signing
 		DeliverW: []int{2, 6, 12}[t.CfgDraw(3)],
@@ -35,13 +34,13 @@ func DrawKnobs(s *Sim) Knobs {
 		RemoveW:  []int{1, 3, 5}[t.CfgDraw(3)],
 		FeeW:     []int{0, 1, 2}[t.CfgDraw(3)],
 	}
-	if s.Mode.ManyHtlcs {
+	if mode.ManyHtlcs {
 		k.AddW, k.RemoveW, k.SignW, k.DeliverW = 24, 2, 1, 14
 	}
-	if s.Mode.Cuts {
+	if mode.Cuts {
 		k.CutW = []int{1, 1, 2, 3}[t.CfgDraw(4)]
 	}
-	if s.Mode.WriteFail {
+	if mode.WriteFail {
 		k.FailW = []int{0, 1, 2}[t.CfgDraw(3)]
 	}
 	return k
@@ -224,7 +223,7 @@ func (s *Sim) Run() {
 			panic(p)
 		}
 	}()
-	k := DrawKnobs(s)
+	k := s.knobs
 	r.Logf("config: %v knobs=%+v", s.W.Cfg, k)
 	s.CheckAll()
 	for s.events < s.Mode.MaxSteps && r.Step() {
